@@ -359,7 +359,13 @@ func (p *Prog) vacuityChecks(obls []*Obligation, dir string) []string {
 	return bad
 }
 
-// globalObligations: package-level checks owned by a property (filled in by later stages).
+// globalObligations: lemma obligations owned by a property.
 func (p *Prog) globalObligations(id string) []*Obligation {
-	return nil
+	var out []*Obligation
+	for _, o := range p.lemmaObligations() {
+		if hasProp(o, id) {
+			out = append(out, o)
+		}
+	}
+	return out
 }
